@@ -16,10 +16,13 @@ Tie to the source:
   (4) a second oracle-only stream (harness/c10_assign.py): parameters given by initial assignments whose
       definition changes between segments / among the reads.
 
-Two recorded findings have proposed repairs that are NOT applied; the check is delivered in snapshot position:
-  coq/simres/ExpectedFacts.v (PKFirst | PKRows) is the expected shape of get_producers/get_consumers, and the
-  oracle excuses the shape of a finding only while it is recorded in known_findings.json
-  (tools/c10_switch.py prodcons|assign snapshot|repaired <commit>; design/C10.md "Lead to-do").
+State of the switches (tools/c10_switch.py prodcons|assign snapshot|repaired <commit>; design/C10.md):
+  prodcons = repaired (/repo b146866: coq/simres/ExpectedFacts.v expects PKRows);
+  assign   = snapshot: finding C10-assigned-parameter-snapshot stays recorded (its repair is deliberately not applied);
+  the oracle excuses the shape of a finding only while it is recorded in known_findings.json.
+Since /repo 4167248 the views put the shared model's parameter values back (regenerated fact rf_view = VKRestores, pinned);
+the model follows VKRestores / VKLeavesLast, so `mpars` reads (model.get_parameter_values() between the reads) are part of
+the correspondence.  Own case stream "c10-shared-time": results in which two segments report the same time point.
 """
 
 from __future__ import annotations
@@ -95,24 +98,47 @@ for i in results:
 return normalised""",
 ]
 
-_COMPUTE_ARGS = {
-    (True, True): """if len(self.raw_args) > 0:
-    return self.raw_args
-for res, p in zip(self.raw_variables, self.raw_parameters, strict=True):
-    self.model.update_parameters(p)
-    self.raw_args.append(self.model.get_args_time_course(variables=res, include_variables=True, include_parameters=True, include_derived_parameters=True, include_derived_variables=True, include_reactions=True, include_surrogate_variables=True, include_surrogate_fluxes=True, include_readouts=True))
-return self.raw_args""",
-}
-_COMPUTE_ARGS[(False, True)] = _COMPUTE_ARGS[(True, True)].split("\n", 2)[2]
-_COMPUTE_ARGS[(True, False)] = _COMPUTE_ARGS[(True, True)].replace("    self.model.update_parameters(p)\n", "")
-_COMPUTE_ARGS[(False, False)] = _COMPUTE_ARGS[(False, True)].replace("    self.model.update_parameters(p)\n", "")
+# _compute_args, keyed (fill guard present, update_parameters(p) per segment, view kind).  "VKRestores" = the bodies
+# since /repo 4167248 (remember the parameter values in force, try: the loop, finally: put them back);
+# "VKLeavesLast" = the bodies before it (nothing is put back: the model stays at the last segment's parameters).
+_GUARD = "if len(self.raw_args) > 0:\n    return self.raw_args\n"
+_APPEND = "self.raw_args.append(self.model.get_args_time_course(variables=res, include_variables=True, include_parameters=True, include_derived_parameters=True, include_derived_variables=True, include_reactions=True, include_surrogate_variables=True, include_surrogate_fluxes=True, include_readouts=True))"
+_COMPUTE_ARGS = {}
+for _g in (True, False):
+    for _r in (True, False):
+        _upd = "self.model.update_parameters(p)\n" if _r else ""
+        _COMPUTE_ARGS[(_g, _r, "VKLeavesLast")] = (
+            (_GUARD if _g else "")
+            + "for res, p in zip(self.raw_variables, self.raw_parameters, strict=True):\n"
+            + "".join("    " + ln + "\n" for ln in (_upd + _APPEND).splitlines())
+            + "return self.raw_args"
+        )
+        _COMPUTE_ARGS[(_g, _r, "VKRestores")] = (
+            (_GUARD if _g else "")
+            + "in_force = self._parameters_in_force()\ntry:\n"
+            + "    for res, p in zip(self.raw_variables, self.raw_parameters, strict=True):\n"
+            + "".join("        " + ln + "\n" for ln in (_upd + _APPEND).splitlines())
+            + "finally:\n    self.model.update_parameters(in_force)\nreturn self.raw_args"
+        )
 
-_RHS = {
-    True: """args_by_simulation = self._compute_args()
-return self._adjust_data([self.model.update_parameters(p).get_right_hand_side_time_course(args=args) for args, p in zip(args_by_simulation, self.raw_parameters, strict=True)], normalise=normalise, concatenated=concatenated)""",
-    False: """args_by_simulation = self._compute_args()
-return self._adjust_data([self.model.get_right_hand_side_time_course(args=args) for args, p in zip(args_by_simulation, self.raw_parameters, strict=True)], normalise=normalise, concatenated=concatenated)""",
+# get_right_hand_side, keyed (update_parameters(p) per segment, view kind)
+_RHS_CALL = {
+    True: "self.model.update_parameters(p).get_right_hand_side_time_course(args=args)",
+    False: "self.model.get_right_hand_side_time_course(args=args)",
 }
+_RHS = {}
+for _r, _call in _RHS_CALL.items():
+    _comp = f"[{_call} for args, p in zip(args_by_simulation, self.raw_parameters, strict=True)]"
+    _RHS[(_r, "VKLeavesLast")] = (
+        "args_by_simulation = self._compute_args()\n"
+        f"return self._adjust_data({_comp}, normalise=normalise, concatenated=concatenated)"
+    )
+    _RHS[(_r, "VKRestores")] = (
+        "args_by_simulation = self._compute_args()\nin_force = self._parameters_in_force()\n"
+        f"try:\n    rhs = {_comp}\nfinally:\n    self.model.update_parameters(in_force)\n"
+        "return self._adjust_data(rhs, normalise=normalise, concatenated=concatenated)"
+    )
+_IN_FORCE = "return {k: p.value for k, p in self.model.get_raw_parameters(as_copy=False).items()}"
 
 _PRODUCERS = """self.model.update_parameters(self.raw_parameters[0])
 names = [k for k, v in self.model.get_stoichiometries_of_variable(variable).items() if v > 0]
@@ -133,6 +159,7 @@ _CONSUMERS = _PRODUCERS.replace("if v > 0]", "if v < 0]").replace("*= stoichs[k]
 # the repaired bodies (fixes/C10-prodcons-per-segment.diff): fact PKRows
 _PRODUCERS_ROWS = "return self._get_fluxes_by_sign(variable, sign=1, scaled=scaled, normalise=normalise, concatenated=concatenated)"
 _CONSUMERS_ROWS = "return self._get_fluxes_by_sign(variable, sign=-1, scaled=scaled, normalise=normalise, concatenated=concatenated)"
+_BY_SIGN_LAST = "self.model.update_parameters(self.raw_parameters[-1])\n"  # the old bodies' last statement before the answer
 _BY_SIGN = """factors: dict[str, float | Derived] = {name: rxn.stoichiometry[variable] for name, rxn in self.model.get_raw_reactions(as_copy=False).items() if variable in rxn.stoichiometry}
 for surrogate in self.model.get_raw_surrogates(as_copy=False).values():
     for name, stoichiometry in surrogate.stoichiometries.items():
@@ -179,6 +206,7 @@ _MODEL = {
     "get_right_hand_side_time_course": "if (cache := self._cache) is None:\n    cache = self._create_cache()\nvar_names = self.get_variable_names()\nrhs_by_time = {}\nfor time, variables in args.iterrows():\n    rhs_by_time[time] = self._get_right_hand_side(args=variables.to_dict() | {'time': time}, var_names=var_names, cache=cache)\nreturn pd.DataFrame(rhs_by_time).T",
     "get_raw_reactions": "if as_copy:\n    return copy.deepcopy(self._reactions)\nreturn self._reactions",
     "get_raw_surrogates": "if as_copy:\n    return copy.deepcopy(self._surrogates)\nreturn self._surrogates",
+    "get_raw_parameters": "if as_copy:\n    return copy.deepcopy(self._parameters)\nreturn self._parameters",
     "get_stoichiometries_of_variable": "if (cache := self._cache) is None:\n    cache = self._create_cache()\nargs = self.get_args(variables=variables, time=time)\nstoich = copy.deepcopy(cache.stoich_by_cpds[variable])\nfor rxn, derived in cache.dyn_stoich_by_cpds.get(variable, {}).items():\n    stoich[rxn] = float(derived.fn(*(args[i] for i in derived.args)))\nreturn stoich",
 }
 
@@ -197,6 +225,7 @@ def extract_facts() -> dict[str, str]:
     facts = {
         "norm_rows": "NRUnknown", "fill_guard": "false", "fill_reapply": "false", "rhs_reapply": "false",
         "prod": "PKUnknown", "select_adjust_shape": "false", "views_shape": "false", "model_shape": "false",
+        "view": "VKUnknown",
     }
     try:
         sim = ast.parse((common.REPO / "src/mxlpy/simulation.py").read_text())
@@ -214,19 +243,23 @@ def extract_facts() -> dict[str, str]:
             facts["norm_rows"] = "NRRebindEmpty"
         elif any(_same(src, s) for s in _NORM_FIXED):
             facts["norm_rows"] = "NRFixed"
+    # which of the three bodies that touch the shared model's parameters put back what they found
+    kinds: dict[str, str] = {}
     ca = _find(cls.body, "_compute_args")
     if ca is not None:
-        for (guard, reapply), shape in _COMPUTE_ARGS.items():
+        for (guard, reapply, vk), shape in _COMPUTE_ARGS.items():
             if _same(_body_src(ca), shape):
                 facts["fill_guard"], facts["fill_reapply"] = cbool(guard), cbool(reapply)
+                kinds["_compute_args"] = vk
                 if not (guard and reapply):
                     facts["fill_shape_note"] = "recognised variant"
     rh = _find(cls.body, "get_right_hand_side")
     if rh is not None:
-        for reapply, shape in _RHS.items():
+        for (reapply, vk), shape in _RHS.items():
             if _same(_body_src(rh), shape):
                 facts["rhs_reapply"] = cbool(reapply)
                 facts["rhs_recognised"] = "true"
+                kinds["get_right_hand_side"] = vk
     facts.setdefault("rhs_recognised", "false")
     gp, gc = _find(cls.body, "get_producers"), _find(cls.body, "get_consumers")
     if gp is not None and gc is not None:
@@ -239,8 +272,22 @@ def extract_facts() -> dict[str, str]:
                 for n in sim.body
             )
             if (bs is not None and derived_imported and _same(_body_src(gp), _PRODUCERS_ROWS) and _same(_body_src(gc), _CONSUMERS_ROWS)
-                    and _same(_body_src(bs), _BY_SIGN) and not bs.decorator_list and not gp.decorator_list and not gc.decorator_list):
-                facts["prod"] = "PKRows"
+                    and not bs.decorator_list and not gp.decorator_list and not gc.decorator_list):
+                if _same(_body_src(bs), _BY_SIGN):
+                    facts["prod"], kinds["_get_fluxes_by_sign"] = "PKRows", "VKLeavesLast"
+                elif _same(_body_src(bs), _BY_SIGN.replace(_BY_SIGN_LAST, "")):
+                    facts["prod"], kinds["_get_fluxes_by_sign"] = "PKRows", "VKRestores"
+    if facts["prod"] == "PKFirst":
+        kinds["_get_fluxes_by_sign"] = "VKLeavesLast"  # those bodies end with update_parameters(self.raw_parameters[-1])
+    pif = _find(cls.body, "_parameters_in_force")
+    # _get_fluxes_by_sign takes part only when its body was recognised (otherwise prod = PKUnknown: producers/consumers
+    # answer "equal to nothing" anyway and the other views are governed by the two bodies above)
+    need = {"_compute_args", "get_right_hand_side"} | ({"_get_fluxes_by_sign"} if facts["prod"] != "PKUnknown" else set())
+    if set(kinds) == need and len(set(kinds.values())) == 1:
+        vk = next(iter(kinds.values()))
+        if vk == "VKLeavesLast" or (pif is not None and not pif.decorator_list and _same(_body_src(pif), _IN_FORCE)):
+            facts["view"] = vk
+    facts["view_bodies"] = " ".join(f"{k}={v}" for k, v in sorted(kinds.items()))
     sd, ad = _find(cls.body, "_select_data"), _find(cls.body, "_adjust_data")
     head_ok = nf is not None and _body_src(nf).startswith(ast.unparse(ast.parse(_NORM_HEAD)))
     facts["select_adjust_shape"] = cbool(
@@ -279,10 +326,10 @@ def gen() -> dict[str, str]:
     f = extract_facts()
     text = (
         "(* REGENERATED from src/mxlpy/simulation.py and src/mxlpy/model.py by harness/c10.py; do not edit.\n"
-        "   An unrecognised shape yields NRUnknown / PKUnknown / false, which breaks C10_facts_pinned. *)\n"
+        "   An unrecognised shape yields NRUnknown / PKUnknown / VKUnknown / false, which breaks C10_facts_pinned. *)\n"
         "From SimRes Require Import ResModel.\n"
         f"Definition gen_res_facts : res_facts := mkResFacts {f['norm_rows']} {f['fill_guard']} {f['fill_reapply']} "
-        f"{f['rhs_reapply']} {f['prod']} {f['select_adjust_shape']} {f['views_shape']} {f['model_shape']}.\n"
+f"{f['rhs_reapply']} {f['prod']} {f['select_adjust_shape']} {f['views_shape']} {f['model_shape']} {f['view']}.\n"
     )
     common.write_if_changed(common.area_dir(AREA) / "GenResFacts.v", text)
     return f
@@ -379,6 +426,44 @@ def gen_result(rng, spec) -> dict:
     return {"mode": "direct", "segs": segs, "pars": ps}
 
 
+def gen_result_shared(rng, spec) -> dict:
+    """results in which two segments report the SAME time point (own rng stream "c10-shared-time"):
+    through the Simulator by runs to steady state (the search restarts at t0, so its single row repeats a time that an
+    earlier segment reported), or constructed directly with a shared boundary point / a segment that restarts at an
+    earlier reported time.  Times inside one segment stay distinct (Model.get_args_time_course keys its rows by time)."""
+    pars = dict(spec["pars"])
+    nseg = rng.choice([2, 2, 3, 3, 4])
+    if rng.random() < 0.45:
+        script, have_ss = [], False
+        for i in range(nseg):
+            upd = {}
+            if i > 0 or rng.random() < 0.3:
+                for k in rng.sample(list(pars), rng.randint(1, len(pars))):
+                    upd[k] = rng.randint(-3, 3)
+            ss = rng.random() < 0.5 or (i == nseg - 1 and not have_ss)
+            have_ss = have_ss or ss
+            script.append([upd, "ss" if ss else rng.randint(1, 3)])
+        return {"mode": "sim", "script": script}
+    segs, ps, t, seen, shared = [], [], rng.choice([0, 0, 2]), [], False
+    for i in range(nseg):
+        for k in rng.sample(list(pars), rng.randint(0, len(pars))):
+            pars[k] = rng.randint(-3, 3)
+        if i > 0:
+            u = rng.random()
+            if u < 0.6 or (i == nseg - 1 and not shared):
+                t, shared = seen[-1], True  # the boundary point is reported by both segments
+            elif u < 0.85:
+                t, shared = rng.choice(seen), True  # restart at an earlier reported time
+        rows = []
+        for _ in range(rng.randint(1, 3)):
+            rows.append([t, [rng.randint(-6, 6) for _ in spec["vars"]]])
+            seen.append(t)
+            t += rng.choice([1, 1, 2])
+        segs.append(rows)
+        ps.append(dict(pars))
+    return {"mode": "direct", "segs": segs, "pars": ps}
+
+
 def gen_norm(rng, seg_lens):
     u = rng.random()
     pw = [1, 2, 4, 8, -2, -4, Fraction(1, 2)]
@@ -464,7 +549,17 @@ def _exact_integrator():
             return self.integrate(t_end=float(time_points[-1]))
 
         def integrate_to_steady_state(self, *, tolerance, rel_norm):  # noqa: ANN001, ARG002
-            return self.integrate(t_end=self.t + 1.0)
+            """like the shipped integrators: restart at t0 from y0, probe t0+1, t0+2, ... and report the ONE time point
+            at which the state stopped changing (here: at the latest the third probe)"""
+            self.reset()
+            for _ in range(3):
+                y1 = self.y.copy()
+                d = np.array(self.rhs(self.t, self.y), dtype=float)
+                self.y = ((self.y + d + 9.0) % 19.0) - 9.0
+                self.t += 1.0
+                if np.array_equal(self.y, y1):
+                    break
+            return Result(TimeCourse(time=np.array([self.t]), values=np.array([self.y.copy()])))
 
     return ExactInt
 
@@ -504,6 +599,12 @@ def build_result(spec, result):
                 s.update_parameter(k, v)
             elif upd:
                 s.update_parameters(dict(upd))
+            if n == "ss":
+                # a run to steady state reports ONE row, at the time at which the search (restarted at t0) stopped:
+                # two such segments, or one after a time course, report a time point a second time
+                s.simulate_to_steady_state()
+                t = int(s.variables[-1].index[-1])
+                continue
             t += n
             s.simulate(t)
         return m, s.get_result().unwrap_or_err()
@@ -1033,6 +1134,20 @@ CORPUS = [
      "ops": [["upd", "p0", -3], ["rhs", None, True], ["mpars"], ["upd", "p1", 3], ["pfluxes"], ["args", [True] * 8, True, None],
              ["rhs", None, False], ["prod", "x1", True, None, True], ["cons", "x0", True, ["s", [2, 1]], False], ["y0"], ["combined"]]},
 ]
+CORPUS += [
+    # seeded/C10-5: two segments report the same time point; a concatenated view must still be ALL rows, stacked in order
+    {"kind": "corpus:shared-boundary-time", "spec": _SPEC2,
+     "result": {"mode": "direct", "segs": [[[0, [1, 2]], [1, [2, 3]], [2, [3, 1]]], [[2, [3, 1]], [3, [0, 2]]], [[1, [2, 2]]]],
+                "pars": [{"p0": 2, "p1": 1}, {"p0": 3, "p1": 1}, {"p0": 3, "p1": -1}]},
+     "ops": [["pvars"], ["vars", False, False, False, True, None], ["fluxes", True, ["s", [2, 1]], True], ["rhs", None, True],
+             ["args", [True] * 8, True, ["l", [[1, 1], [2, 1], [4, 1], [8, 1], [1, 1], [2, 1]]]], ["combined"], ["y0"],
+             ["prod", "x1", True, None, True], ["cons", "x0", False, None, True], ["pfluxes"], ["rhs", None, False]]},
+    # the same through the Simulator: time course, parameter change, run to steady state (twice)
+    {"kind": "corpus:steady-state-twice", "spec": _SPEC2,
+     "result": {"mode": "sim", "script": [[{}, 3], [{"p0": 3}, "ss"], [{"p1": -1}, "ss"]]},
+     "ops": [["pvars"], ["pfluxes"], ["rhs", None, True], ["combined"], ["args", [True] * 8, True, None], ["y0"],
+             ["cons", "x0", True, None, True], ["rhs", ["l", [[1, 1], [2, 1], [4, 1], [8, 1], [2, 1], [4, 1]]], True]]},
+]
 # witness of the known finding (producers/consumers decide the sign once, under segment 0)
 FINDING_WITNESS = {
     "kind": "finding:prodcons-sign",
@@ -1061,14 +1176,47 @@ def finding_still_fails(case=FINDING_WITNESS) -> tuple[bool, str]:
 # ---------------------------------------------------------------------------------------
 
 
+def _seg_lens(result) -> list[int]:
+    if result["mode"] == "sim":
+        return [1 if n == "ss" else n + (1 if i == 0 else 0) for i, (_u, n) in enumerate(result["script"])]
+    return [len(s) for s in result["segs"]]
+
+
 def make_case(rng) -> dict:
     spec = gen_spec(rng)
     result = gen_result(rng, spec)
-    if result["mode"] == "sim":
-        seg_lens = [n + (1 if i == 0 else 0) for i, (_u, n) in enumerate(result["script"])]
-    else:
-        seg_lens = [len(s) for s in result["segs"]]
-    return {"kind": result["mode"], "spec": spec, "result": result, "ops": gen_ops(rng, spec, seg_lens)}
+    return {"kind": result["mode"], "spec": spec, "result": result, "ops": gen_ops(rng, spec, _seg_lens(result))}
+
+
+def make_shared_case(rng) -> dict:
+    """a result with a time point reported by two segments, read (also) through concatenated views"""
+    spec = gen_spec(rng)
+    result = gen_result_shared(rng, spec)
+    seg_lens = _seg_lens(result)
+    ops = gen_ops(rng, spec, seg_lens)
+    nm = gen_norm(rng, seg_lens)
+    v = rng.choice(list(spec["vars"]))
+    ops.insert(rng.randint(0, len(ops)), rng.choice([
+        ["pvars"], ["pfluxes"], ["combined"], ["y0"], ["rhs", nm, True], ["fluxes", True, nm, True], ["vars", False, False, False, True, nm],
+        ["args", [True] * 8, True, nm], ["vars", True, True, False, True, None], ["prod", v, True, None, True], ["cons", v, False, None, True],
+    ]))
+    return {"kind": "shared-time:" + result["mode"], "spec": spec, "result": result, "ops": ops}
+
+
+def shares_a_time_point(segs) -> bool:
+    seen: set = set()
+    for seg in segs:
+        ts = {t for t, _ in seg}
+        if ts & seen:
+            return True
+        seen |= ts
+    return False
+
+
+def _is_concatenated(op) -> bool:
+    k = op[0]
+    return k in ("pvars", "pfluxes", "combined", "y0") or (k == "args" and op[2]) or (k == "vars" and op[4]) or (
+        k == "fluxes" and op[3]) or (k == "rhs" and op[2]) or (k in ("prod", "cons") and op[4])
 
 
 def expected_prod() -> str:
@@ -1110,7 +1258,11 @@ def check(run: Run) -> None:
         "the real Simulator with an exact integer integrator and parameter changes between segments (75%) or constructed directly "
         "with arbitrary integer states (25%), then 4-9 reads drawn from all view methods x flags x {no, scalar, per-segment, per-row, "
         "too long, too short} normalisation, interleaved with model.update_parameter; a case is non-trivial if it has >= 2 segments "
-        "or a computed coefficient; distinct by content.  Second stream (oracle only, harness/c10_assign.py): models in which some "
+        "or a computed coefficient; distinct by content.  Own stream 'c10-shared-time' (70 quick / 360 thorough cases, same pipeline: "
+        "oracle + Coq correspondence): results in which two segments report the SAME time point -- through the Simulator by runs to "
+        "steady state after a time course / after another run to steady state (the exact integrator restarts at t0 like the shipped "
+        "ones and reports one row), or constructed directly with a shared boundary point or a segment restarting at an earlier "
+        "reported time -- each read at least once through a concatenated view.  Second stream (oracle only, harness/c10_assign.py): models in which some "
         "parameters are given by an initial assignment over other parameters, the definition (number / assignment) changing between "
         "segments and by user edits among the reads in 60% of the cases"
     )
@@ -1138,7 +1290,8 @@ def check(run: Run) -> None:
         "'the model's values' in the theorems are what Model.get_args_time_course computes under the segment's parameters; that these "
         "are the resolved component values is checked by the oracle here and is the subject of C01/C13",
         "not modelled in Coq: surrogates, data, initial assignments (assignment-defined PARAMETERS are validated by the oracle stream "
-        "harness/c10_assign.py only), duplicate time stamps, zero normalisation factors, floating point",
+        "harness/c10_assign.py only), duplicate time stamps INSIDE one segment (across segments they are generated and modelled: "
+        "concat appends), zero normalisation factors, floating point",
         "hypothesis wf_names of the N*v theorems (unique names, 'time' protected = Model._insert_id) is evaluated to true in Coq on every "
         "generated model (wf_namesb, sound by C10_wf_names_checked)",
         "correspondence harness: literal printer, output canonicaliser, coqc output parser",
@@ -1149,6 +1302,9 @@ def check(run: Run) -> None:
     cases = [dict(c) for c in CORPUS] + [dict(FINDING_WITNESS)]
     while len(cases) < n_cases:
         cases.append(make_case(rng))
+    # own stream (the main stream above is unchanged): results in which two segments report the same time point
+    srng = common.rng_for(run.seed, "c10-shared-time")
+    cases += [make_shared_case(srng) for _ in range(360 if thorough else 70)]
 
     dist: dict[str, int] = {}
     bump = lambda k, n=1: dist.__setitem__(k, dist.get(k, 0) + n)  # noqa: E731
@@ -1172,6 +1328,10 @@ def check(run: Run) -> None:
         computed = any(not isinstance(c, int) for _k, _n, _f, _a, st in case["spec"]["comps"] for _cpd, c in st)
         run.count_case((case["spec"], case["result"], case["ops"]), nontrivial=nseg >= 2 or computed)
         bump(f"segments={nseg}")
+        if shares_a_time_point(obs["segs"]):
+            bump("time_point_reported_by_two_segments")
+            if any(_is_concatenated(op) for op in case["ops"]):
+                bump("time_point_reported_by_two_segments:read_concatenated")
         bump("mode=" + case["result"]["mode"])
         bump("computed_coefficient" if computed else "numeric_coefficients_only")
         for op, o in zip(case["ops"], obs["outs"]):
